@@ -51,10 +51,10 @@ func (o *goSliceObject) setLength(value Value) {
 	}
 }
 
-func (o *goSliceObject) setValue(index int64, value Value) bool {
+func (o *goSliceObject) setValue(rt *runtime, index int64, value Value) bool {
 	reflectValue, err := value.toReflectValue(o.value.Type().Elem())
 	if err != nil {
-		panic(err)
+		panic(rt.panicStoreError(err))
 	}
 
 	indexValue, exists := o.getValue(index)
@@ -123,7 +123,7 @@ func goSliceDefineOwnProperty(obj *object, name string, descriptor property, thr
 		obj.value.(*goSliceObject).setLength(descriptor.value.(Value))
 		return true
 	} else if index := stringToArrayIndex(name); index >= 0 {
-		if obj.value.(*goSliceObject).setValue(index, descriptor.value.(Value)) {
+		if obj.value.(*goSliceObject).setValue(obj.runtime, index, descriptor.value.(Value)) {
 			return true
 		}
 		return obj.runtime.typeErrorResult(throw)
